@@ -14,16 +14,7 @@ variable {β : Type}
 /-- The chunked parallel root (`GetMerkleRoot` with `runtime.NumCPU() = ncpu`) is the sequential
 root (`getMerkleRoot`), for every list — every transaction count — and every worker count. -/
 theorem parallel_eq_seq (nil : β) (H2 : β → β → β) (xs : List β) (ncpu : Nat) :
-    GetMerkleRoot nil H2 ncpu xs = getMerkleRoot nil H2 xs := by
-  unfold GetMerkleRoot
-  split
-  · rfl
-  · next h =>
-    have hn : 80 < xs.length := by omega
-    obtain ⟨k, hk, hstep, hle⟩ := stepOf_spec xs.length ncpu hn
-    simp only [hstep]
-    rw [chunkRoots_eq nil H2 k hk xs.length xs (Nat.le_refl _)]
-    exact (root_iterPair nil H2 k xs hle).symm
+    GetMerkleRoot nil H2 ncpu xs = getMerkleRoot nil H2 xs := GetMerkleRoot_eq nil H2 xs ncpu
 
 /-- non-vacuity: the chunked branch is really taken (81 leaves, 4 workers: chunks of 16 and a
 last chunk of one leaf that goes through `getMerkleRootPad`). -/
@@ -133,5 +124,83 @@ theorem branch_verifies [DecidableEq β] (nil : β) (H2 : β → β → β) (xs 
 example : GetMerkleBranch (0 : Nat) (fun a b => 2 * a + 3 * b + 1) [5, 6, 7, 8, 9] 4 = .ok [9, 46, 176] ∧
     GetMerkleRootFromBranch (fun a b => 2 * a + 3 * b + 1) [9, 46, 176] 9 4
       = getMerkleRoot 0 (fun a b => 2 * a + 3 * b + 1) [5, 6, 7, 8, 9] := by decide
+
+/-- Multi-layer (child chain) roots, whatever the worker count: the top root is the sequential
+root of the child-chain roots; every child root's branch verifies against the top root; every
+child root is the sequential root of its transaction range, and the branch of every transaction
+of the range verifies against the child root (the two-level proof of `getMultiLayerProofs`). -/
+theorem multilayer_ok [DecidableEq β] (nil zero : β) (H2 : β → β → β) (ncpu : Nat)
+    (txs : List (Bytes × β)) (r : β) (cs : List (Child β))
+    (h : calcMultiLayer nil zero H2 ncpu txs = .ok (r, cs))
+    (hne : txs ≠ []) (hlen : txs.length < 2 ^ 32) :
+    r = getMerkleRoot nil H2 (cs.map (·.hash)) ∧
+    (∀ (i : Nat) (hi : i < cs.length), cs.length < 2 ^ 32 →
+      ∃ b, GetMerkleBranch nil H2 (cs.map (·.hash)) i = .ok b ∧
+        GetMerkleRootFromBranch H2 b cs[i].hash i = r) ∧
+    (∀ c ∈ cs, ∀ (j : Nat) (hj : j < (((txs.map (·.2)).drop c.start).take c.count).length),
+      ∃ b, GetMerkleBranch nil H2 (((txs.map (·.2)).drop c.start).take c.count) j = .ok b ∧
+        GetMerkleRootFromBranch H2 b (((txs.map (·.2)).drop c.start).take c.count)[j] j = c.hash) := by
+  have hroot_and_ok : r = getMerkleRoot nil H2 (cs.map (·.hash)) ∧ ∀ c ∈ cs, ChildOK nil H2 (txs.map (·.2)) c := by
+    unfold calcMultiLayer at h
+    have he : txs.isEmpty = false := by cases txs <;> simp_all
+    simp only [he, Bool.false_eq_true, if_false] at h
+    split at h
+    · cases h
+    · next t s hst =>
+      split at h
+      · cases h
+      · next r' hr' =>
+        cases h
+        have hhs : txs.map (·.2) ≠ [] := by simpa using hne
+        have hr := singleLayerRoot_ok nil H2 zero ncpu _ r hr' hhs
+        refine ⟨by simp [root_single], ?_⟩
+        intro c hc
+        simp only [List.mem_singleton] at hc
+        subst hc
+        have hs0 : s = 0 := by
+          cases txs with
+          | nil => exact absurd rfl hne
+          | cons e rest =>
+            obtain ⟨t0, tl, h0⟩ := childStarts_head e.1 (rest.map (·.1))
+            simp only [List.map_cons] at hst
+            rw [h0] at hst
+            cases hst; rfl
+        subst hs0
+        intro _
+        simp only [List.drop_zero]
+        rw [List.take_of_length_le (by simp)]
+        exact hr
+    · next hs1 hs2 =>
+      split at h
+      · cases h
+      · next cs' hcs' =>
+        split at h
+        · cases h
+        · cases h
+          exact ⟨GetMerkleRoot_eq nil H2 _ ncpu, childRoots_ok nil H2 zero ncpu _ _ _ _ hcs'⟩
+  obtain ⟨hroot, hok⟩ := hroot_and_ok
+  refine ⟨hroot, ?_, ?_⟩
+  · intro i hi hcs
+    have := branch_verifies nil H2 (cs.map (·.hash)) i (by simpa using hi) (by simpa using hcs)
+    obtain ⟨b, hb, hv⟩ := this
+    exact ⟨b, hb, by rw [hroot, ← hv]; simp⟩
+  · intro c hc j hj
+    have hne' : ((txs.map (·.2)).drop c.start).take c.count ≠ [] := by
+      intro h0; rw [h0] at hj; simp at hj
+    have hlen' : (((txs.map (·.2)).drop c.start).take c.count).length < 2 ^ 32 := by
+      simp only [List.length_take, List.length_drop, List.length_map]; omega
+    obtain ⟨b, hb, hv⟩ := branch_verifies nil H2 _ j hj hlen'
+    exact ⟨b, hb, by rw [hok c hc hne']; exact hv⟩
+
+/-- non-vacuity: one main-chain tx ("coins"), two of "user.p.a." and one of "user.p.b." give three
+child chains (start, count) = (0,1), (1,2), (3,1) and a top root. -/
+example :
+    (match calcMultiLayer (0 : Nat) 1000 (fun a b => 2 * a + 3 * b + 1) 4
+      [([99, 111, 105, 110, 115], 11),
+       ([117, 115, 101, 114, 46, 112, 46, 97, 46, 99, 111, 105, 110, 115], 12),
+       ([117, 115, 101, 114, 46, 112, 46, 97, 46, 116, 111, 107, 101, 110], 13),
+       ([117, 115, 101, 114, 46, 112, 46, 98, 46, 99, 111, 105, 110, 115], 14)] with
+     | .ok (r, cs) => some (r, cs.map (fun (c : Child Nat) => (c.start, c.count, c.hash)))
+     | .panic => none) = some (644, [(0, 1, 11), (1, 2, 64), (3, 1, 14)]) := by decide
 
 end C18
